@@ -284,8 +284,10 @@ Theorem C02_groups_meaning : forall s, Inv s ->
 Proof. exact Inv_meaning. Qed.
 Print Assumptions C02_groups_meaning.
 
-Theorem C02_groups_init : forall rs ms gs sto0 mb0 rg0 gb0, NoDup rs -> NoDup ms -> NoDup gs ->
-  Inv (init rs ms gs sto0 mb0 rg0 gb0).
+Theorem C02_groups_init : forall rs ms gs idr idm idg idp sto0 mb0 rg0 gb0,
+  NoDup (map (fun x => assoc x idr x) rs) -> NoDup (map (fun x => assoc x idm x) ms) ->
+  NoDup (map (fun x => assoc x idg x) gs) ->
+  Inv (init rs ms gs idr idm idg idp sto0 mb0 rg0 gb0).
 Proof. exact init_Inv. Qed.
 Print Assumptions C02_groups_init.
 
@@ -302,7 +304,7 @@ Print Assumptions C02_groups_history.
 Example C02_groups_history_nonvacuous : Proofs.ok_run s0 hist /\
   (let s := run vfix hist s0 in
    lst s CR = [3] /\ lst s CM = [1; 3] /\ lst s CG = [0; 2] /\ lst s CP = [1] /\
-   map (oid s CR) [0; 1; 2; 3] = [7; 1; 2; 3] /\ oid s CG 0 = 5 /\ oid s CP 0 = 4 /\ oid s CP 1 = 1 /\
+   map (oid s CR) [0; 1; 2; 3] = [7; 200; 2; 3] /\ oid s CM 2 = 203 /\ oid s CG 0 = 5 /\ oid s CP 0 = 4 /\ oid s CP 1 = 1 /\
    members s 0 = [(CM, 1); (CG, 0)] /\ members s 1 = [(CR, 3); (CG, 2)] /\ kind s 1 = 2 /\
    map snd (map (step vfix (run vfix (firstn 4 hist) s0)) [AddGroups [1; 1]]) = [RaiseValueError]).
 Proof. exact (conj hist_ok hist_nontrivial). Qed.
@@ -344,6 +346,23 @@ Theorem C02_groups_set_id_effect : forall c x i s, Inv s ->
      Inv s').
 Proof. exact set_id_effect. Qed.
 Print Assumptions C02_groups_set_id_effect.
+
+(* escape_ID = the identifier setter for every metabolite, reaction and gene of the model (f = _escape_str_id on
+   identifier numbers, evaluated by the real function in the check) *)
+Theorem C02_groups_escape_ids_effect : forall tbl s, Inv s ->
+  let f := fun i => assoc i tbl i in
+  let '(s', r) := escape_ids tbl s in
+  lst s' = lst s /\ omod s' = omod s /\ members s' = members s /\ kind s' = kind s /\ sto s' = sto s /\ rgenes s' = rgenes s /\
+  (forall x, oid s' CP x = oid s CP x) /\ (forall c x, ~ In x (lst s c) -> oid s' c x = oid s c x) /\
+  (r = Ok -> forall c x, c <> CP -> In x (lst s c) -> oid s' c x = f (oid s c x) /\ lookup s' c (f (oid s c x)) = Some x) /\
+  Inv s'.
+Proof. exact escape_ids_effect. Qed.
+Print Assumptions C02_groups_escape_ids_effect.
+
+Theorem C02_groups_set_bounds_effect : forall r lb ub s,
+  fst (set_bounds r lb ub s) = s /\ snd (set_bounds r lb ub s) = if ub <? lb then RaiseValueError else Ok.
+Proof. exact set_bounds_effect. Qed.
+Print Assumptions C02_groups_set_bounds_effect.
 
 Theorem C02_groups_add_members_effect : forall g l s,
   let s' := add_members g l s in
